@@ -660,7 +660,7 @@ def native_valuation(w):
     return v
 
 
-def random_walks_delegated(seed, seconds, maxlen=30, clauses=(), skip=HOSTILE):
+def random_walks_delegated(seed, seconds, maxlen=30, clauses=(), skip=HOSTILE, weight=None):
     """random legal histories (incremental: one World per walk) with a random re-entry policy per walk; complements the
     breadth-first search with long histories (reconnects, full close-down).  Returns (found, walks, states)."""
     import random
@@ -692,7 +692,8 @@ def random_walks_delegated(seed, seconds, maxlen=30, clauses=(), skip=HOSTILE):
                 legal = [(n, d) for n, l, d in evs if l(w)]
                 if not legal:
                     break
-                weights = [4 if n.startswith(("peer.", "msg.claimed", "msg.released", "msg.closed", "msg.welcome({})", "ws.open"))
+                weights = [weight(n) if weight is not None else
+                           4 if n.startswith(("peer.", "msg.claimed", "msg.released", "msg.closed", "msg.welcome({})", "ws.open"))
                            else 1 for n, _ in legal]
                 n, d = rnd.choices(legal, weights)[0]
                 h.append(n)
